@@ -260,7 +260,7 @@ pub fn c11(ctx: &mut Ctx) {
 fn member_target(m: &Member) -> Target {
     match m {
         Member::Plain(p) => Target::Pkt(p.clone(), build::Variant::PLAIN),
-        Member::Wrapped(p) => Target::Pkt(p.clone(), build::Variant { owned: false, wrap: build::Wrap::Packet }),
+        Member::Wrapped(p) => Target::Pkt(p.clone(), build::Variant::new(false, build::Wrap::Packet)),
         Member::Ext { pt, min, count, ssrc, words, pad } => Target::Ext { pt: *pt, min: *min, count: *count, ssrc: *ssrc, words: words.clone(), pad: *pad },
         Member::Nested(inner) => Target::Compound(inner.clone()),
     }
@@ -464,6 +464,32 @@ pub fn c14(ctx: &mut Ctx) {
         match guard::catch(|| c14_case(&ms, l)) {
             Ok(()) => {}
             Err(pi) => l.subject_panic("compound", &pi, || format!("{:?}", ms)),
+        }
+    });
+    // members at the size limits: the largest expressible packet (length field 0xFFFF, 262 144 bytes), one word
+    // below it, and the two sizes around 65 536 bytes (where a 16-bit byte count wraps), mixed with small members
+    let big = |pt: u8, total: usize, fill: u8| Pkt::Unknown { pt, count: 1, data: (0..total - 4).map(|i| fill.wrapping_add((i / 4) as u8)).collect(), pad: 0 };
+    let menu: Vec<Member> = vec![
+        Member::Plain(big(210, 262_144, 0x11)),
+        Member::Plain(big(211, 262_140, 0x22)),
+        Member::Plain(Pkt::App { ssrc: 0x0A0B0C0D, subtype: 3, name: "big!".into(), data: vec![0x5A; 65_536 - 12], pad: 0 }),
+        Member::Wrapped(Pkt::App { ssrc: 0x0A0B0C0D, subtype: 4, name: "big".into(), data: vec![0x5B; 65_532 - 12], pad: 0 }),
+        Member::Plain(Pkt::Bye { ssrcs: vec![1, 2], reason: String::new(), pad: 0 }),
+        Member::Plain(Pkt::Rr { ssrc: 7, blocks: vec![], pad: 8 }),
+        Member::Nested(vec![Member::Plain(big(212, 262_144, 0x33)), Member::Plain(Pkt::Bye { ssrcs: vec![3], reason: "x".into(), pad: 0 })]),
+    ];
+    let k = menu.len() as u64;
+    ctx.bound("large members", "lists of length 1..=3 over {262144-byte, 262140-byte, 65536-byte, 65532-byte, two small members, a nested compound holding a 262144-byte member}");
+    ctx.run_space("compound-lists-with-large-members", k + k * k + k * k * k, |idx, l| {
+        let (len, mut r) = if idx < k { (1, idx) } else if idx < k + k * k { (2, idx - k) } else { (3, idx - k - k * k) };
+        let mut ms = Vec::new();
+        for _ in 0..len {
+            ms.push(menu[(r % k) as usize].clone());
+            r /= k;
+        }
+        match guard::catch(|| c14_case(&ms, l)) {
+            Ok(()) => {}
+            Err(pi) => l.subject_panic("compound", &pi, || format!("{} large-member list", ms.len())),
         }
     });
     ctx.require_hit("accepted");
